@@ -195,6 +195,10 @@ static void explore(Result& R) {
     std::vector<Sub> subs;
     // (h) first: isolated sub-checks fork from a process that has not run the simulation code yet
     if (CONTACT_MODEL_INDEX == 1 && functional) for (int order : {0, 1}) { Sub h{"run_iteration x2, two cell types with and without bending rigidity, order " + std::to_string(order) + ", isolated processes, T=2", 2, th ? 2 : 1, [order] { return scenario_mixed_types(order, 2); }, nullptr, hash_world, "@serial"}; h.isolated = true; subs.push_back(h); }
+    // (g) (early: cheap, and decisive for the identity clauses)
+    if (CONTACT_MODEL_INDEX == 1) {
+    for (int mask : {1, 2, 3}) { if (!th && mask == 3) continue; subs.push_back({"solver-iteration-with-division ready=" + std::to_string(mask) + " T=2", 2, th ? 1 : 0, [mask] { return scenario_solver_division(mask); }, nullptr, hash_world, "@serial"}); }
+    }
     // (c)
     for (int n = 1; n <= (th ? 4 : 3); n++) for (int mask = 0; mask < (1 << n); mask++) { if (__builtin_popcount(mask) > 2) continue; for (int T = 1; T <= 3; T++) { if (!th && T == 3 && n < 3) continue;
         subs.push_back({"peh n=" + std::to_string(n) + " failing=" + std::to_string(mask) + " T=" + std::to_string(T), T, 2, [n, mask] { return scenario_peh(n, mask); }, [n, mask](const std::string& o) { return judge_peh(o, n, mask); }, nullptr, ""}); } }
@@ -204,8 +208,6 @@ static void explore(Result& R) {
     for (int nc : {2, 3}) for (int T : {2, 3}) { if (T > nc) continue; subs.push_back({"contact phase (model " + std::to_string(CONTACT_MODEL_INDEX) + "), " + std::to_string(nc) + " interpenetrating cells, T=" + std::to_string(T), T, th ? 3 : 2, [nc] { return scenario_contact(nc); }, [](const std::string& o) { return o == "ok" ? std::string() : o; }, nullptr, "@serial"}); }
     if (CONTACT_MODEL_INDEX != 1) { std::vector<Sub> only; for (auto& x : subs) if (x.name.rfind("contact phase", 0) == 0) only.push_back(x); subs = only; }   // the other contact-model builds run the contact sub-check only
     else {
-    // (g)
-    for (int mask : {1, 2, 3}) { if (!th && mask == 3) continue; subs.push_back({"solver-iteration-with-division ready=" + std::to_string(mask) + " T=2", 2, th ? 1 : 0, [mask] { return scenario_solver_division(mask); }, nullptr, hash_world, "@serial"}); }
     // (e)
     for (int T : {2, 3}) subs.push_back({"mesh_writer::write, three cells with free slots, T=" + std::to_string(T), T, th ? 2 : 1, [] { return scenario_write(3); }, nullptr, nullptr, "@serial"});
     // (b)
